@@ -782,3 +782,109 @@ func constCases(v ssa.Value, at ssa.Instruction) []constCase {
 	walk(v, core.Guards(at))
 	return out
 }
+
+// valueCase is one non-phi value a (possibly merged) value can be, with the
+// branch outcomes that hold on the edge that selects it.
+type valueCase struct {
+	v      ssa.Value
+	guards []core.Guard
+}
+
+// valueCases enumerates the leaves of a phi (of phis); a non-phi value is its own only case.
+func valueCases(v ssa.Value, at ssa.Instruction) []valueCase {
+	var out []valueCase
+	seen := map[*ssa.Phi]bool{}
+	rootVar := ""
+	if phi, ok := v.(*ssa.Phi); ok {
+		rootVar = phi.Comment
+	}
+	var walk func(v ssa.Value, guards []core.Guard)
+	walk = func(v ssa.Value, guards []core.Guard) {
+		phi, ok := v.(*ssa.Phi)
+		if !ok || phi.Comment != rootVar {
+			// another variable's value (a loop counter assigned to this one) is a leaf as a whole
+			out = append(out, valueCase{v, guards})
+			return
+		}
+		if seen[phi] {
+			return
+		}
+		seen[phi] = true
+		b := phi.Block()
+		for i, e := range phi.Edges {
+			if i < len(b.Preds) {
+				walk(e, core.EdgeGuards(b.Preds[i], b))
+			}
+		}
+	}
+	walk(v, core.Guards(at))
+	return out
+}
+
+// ---- no-follow discipline -----------------------------------------------------------------------
+
+var treeMutators = []string{"os.Remove", "os.RemoveAll", "os.MkdirAll", "os.Mkdir", "os.Symlink", "os.Rename", "os.OpenFile", "os.Create", "os.Chmod", "os.Truncate",
+	"github.com/itchio/screw.Remove", "github.com/itchio/screw.RemoveAll", "github.com/itchio/screw.MkdirAll", "github.com/itchio/screw.Mkdir", "github.com/itchio/screw.Symlink",
+	"github.com/itchio/screw.Rename", "github.com/itchio/screw.OpenFile", "github.com/itchio/screw.Create", "github.com/itchio/screw.Truncate"}
+
+// followingStats lists the path-based Stat calls (which follow symbolic links)
+// in fn's family - fn's outermost enclosing function with all its literals -
+// when that family also changes the tree. What is at a path of a build tree is
+// decided with Lstat: a Stat sees the link's target, so a link to a directory
+// passes for a directory and a dangling link for nothing.
+func followingStats(top *ssa.Function) []*ssa.Call {
+	for top.Parent() != nil {
+		top = top.Parent()
+	}
+	isStat := callTo("os.Stat", "github.com/itchio/screw.Stat")
+	isMut := callTo(treeMutators...)
+	var stats []*ssa.Call
+	mut := false
+	for _, f := range core.WithAnons(top) {
+		core.Instrs(f, func(in ssa.Instruction) {
+			if isStat(in) {
+				stats = append(stats, in.(*ssa.Call))
+			}
+			if isMut(in) {
+				mut = true
+			}
+		})
+	}
+	if !mut {
+		return nil
+	}
+	return stats
+}
+
+// ruleNoFollow applies followingStats to every top-level function of the given packages.
+func ruleNoFollow(c *core.Ctx, rule string, pkgSuffixes ...string) {
+	nFn, nMutFn := 0, 0
+	isMut := callTo(treeMutators...)
+	for _, fn := range c.P.SrcFuncs() {
+		if fn.Parent() != nil {
+			continue
+		}
+		in := false
+		for _, sfx := range pkgSuffixes {
+			if strings.HasSuffix(core.PkgPathOf(fn), sfx) {
+				in = true
+			}
+		}
+		if !in {
+			continue
+		}
+		nFn++
+		for _, f := range core.WithAnons(fn) {
+			if firstInstr(f, isMut) != nil {
+				nMutFn++
+				break
+			}
+		}
+		for _, st := range followingStats(fn) {
+			c.Bad(rule, core.FnName(st.Parent()), "path-based Stat in a function that changes the tree: "+core.Describe(st.Call.Args[0]), core.InstrPos(st),
+				"os.Stat follows symbolic links; the function (with its literals) also removes, creates or renames entries: what is at a path of a build tree must be examined with Lstat, or a link to a directory passes for a directory and a dangling link for nothing")
+		}
+	}
+	c.Floor(rule, "functions that change a tree, in the packages scanned", nMutFn, 3)
+	c.Stats[rule+".functions_scanned"] = nFn
+}
